@@ -143,7 +143,7 @@ def mutated(draw, tier):
         elif kind == 'swap-bounds':
             for j, t in enumerate(toks):
                 if t == '[' and j + 3 < len(toks):
-                    toks[j + 1], toks[j + 3] = draw(st.sampled_from(['3', '5', '2.5'])), draw(st.sampled_from(['0', '1', '2']))
+                    toks[j + 1], toks[j + 3] = draw(st.sampled_from(['3', '5', '2.5', '1e400', '9' * 310, '1e309'])), draw(st.sampled_from(['0', '1', '2']))
                     break
         elif kind == 'weird-literal':
             toks[i] = draw(st.sampled_from(['0x1F', '0b101', '1_000', '3.', '.5', '1e3', '1E-2', '007', '1e', '0x', '9' * 25, '1e400']))
